@@ -4,7 +4,10 @@
 #include <cstring>
 #include <mutex>
 #include <sstream>
+#include <map>
 #include <string>
+#include <string_view>
+#include <utility>
 #include <vector>
 
 #include <reproc++/drain.hpp>
@@ -63,13 +66,28 @@ static reproc::redirect x_redirect(const ShimRedirect &r) {
   return o;
 }
 
+// An options object with static storage duration, as programs keep them: constructed during static initialisation (this object
+// file is linked before reproc++'s own), never modified, and used as the starting point of every "clone" start.
+static reproc::options g_pristine_options;
+
+// Containers of string views whose elements are slices of one buffer (the byte after an element is not NUL).
+struct Views {
+  std::string buf;
+  std::vector<std::pair<size_t, size_t>> at;
+  void add(const char *s, size_t n) { at.emplace_back(buf.size(), n); buf.append(s, n); buf.push_back('|'); }
+  std::string_view get(size_t i) const { return std::string_view(buf).substr(at[i].first, at[i].second); }
+};
+
 static void fill_options(reproc::options &o, const ShimOptions &s, std::vector<std::pair<std::string, std::string>> *pairs, bool *use_pairs) {
+  if (s.clone) o = reproc::options::clone(g_pristine_options);
   o.working_directory = s.working_directory;
   o.env.behavior = (reproc::env::type) s.env_behavior;
   *use_pairs = false;
-  if (s.env_extra && s.clone) {
+  size_t n_env = 0;
+  // (not in fork mode: the simulated fork copies the stack and the library's heap, not the C++ heap of this shim)
+  if (s.env_extra && s.clone && !s.fork) {
     bool all = true;
-    for (const char *const *e = s.env_extra; *e; e++) if (!strchr(*e, '=')) all = false;
+    for (const char *const *e = s.env_extra; *e; e++) { n_env++; if (!strchr(*e, '=')) all = false; }
     if (all) {
       for (const char *const *e = s.env_extra; *e; e++) {
         const char *eq = strchr(*e, '=');
@@ -78,8 +96,21 @@ static void fill_options(reproc::options &o, const ShimOptions &s, std::vector<s
       *use_pairs = true;
     }
   }
-  if (*use_pairs) o.env.extra = reproc::env(*pairs);
-  else o.env.extra = reproc::env(s.env_extra);
+  // the raw array first (a view the options do not own), then - for "clone" starts - a container assigned over it
+  o.env.extra = reproc::env(s.env_extra);
+  if (*use_pairs) {
+    size_t total = 0;
+    for (auto &p : *pairs) total += p.first.size() + p.second.size();
+    if (total % 2 == 1) {
+      Views names, values;
+      for (auto &p : *pairs) { names.add(p.first.data(), p.first.size()); values.add(p.second.data(), p.second.size()); }
+      std::vector<std::pair<std::string_view, std::string_view>> pv;
+      for (size_t i = 0; i < pairs->size(); i++) pv.emplace_back(names.get(i), values.get(i));
+      o.env.extra = reproc::env(pv);
+    } else {
+      o.env.extra = reproc::env(*pairs);
+    }
+  }
   o.redirect.in = x_redirect(s.in);
   o.redirect.out = x_redirect(s.out);
   o.redirect.err = x_redirect(s.err);
@@ -87,7 +118,8 @@ static void fill_options(reproc::options &o, const ShimOptions &s, std::vector<s
   o.redirect.discard = s.discard;
   o.redirect.file = (FILE *) s.file;
   o.redirect.path = s.path;
-  o.stop = x_stop(s.stop);
+  // an all-noop request is what a default-constructed options object holds already
+  { bool any = false; for (int i = 0; i < 6; i++) if (s.stop[i]) any = true; if (any || !s.clone) o.stop = x_stop(s.stop); }
   o.deadline = reproc::milliseconds(s.deadline);
   o.input = reproc::input(s.input, s.input_size);
   o.nonblocking = s.nonblocking;
@@ -110,7 +142,21 @@ static ShimRet x_start(void *p, const char *const *argv, const ShimOptions &s) {
   if (argv && s.clone) {
     std::vector<std::string> args;
     for (const char *const *a = argv; *a; a++) args.emplace_back(*a);
-    ec = proc->start(reproc::arguments(args), reproc::options::clone(o));
+    reproc::arguments conv(argv);  // a view of the caller's array, then a container assigned over it
+    size_t total = 0;
+    for (auto &a : args) total += a.size();
+    if (total % 2 == 0) {
+      Views v;
+      for (auto &a : args) v.add(a.data(), a.size());
+      std::vector<std::string_view> views;
+      for (size_t i = 0; i < args.size(); i++) views.push_back(v.get(i));
+      conv = reproc::arguments(views);
+    } else {
+      conv = reproc::arguments(args);
+    }
+    ec = proc->start(conv, reproc::options::clone(o));
+    // the caller's own array is still the caller's
+    for (const char *const *a = argv; *a; a++) { volatile char c = **a; (void) c; }
   } else {
     ec = s.clone ? proc->start(reproc::arguments(argv), reproc::options::clone(o)) : proc->start(reproc::arguments(argv), o);
   }
